@@ -31,7 +31,7 @@ var decodeKinds = map[string]string{
 }
 
 func runC01(c *Check) {
-	c.Explanation = "Decides the table-agreement part of C01 for every profile: for each of the eight wire messages the writer's encode method and the reader's decoder table agree tag by tag on kind and on the struct field they carry (no field written but not read, read but not written, read into the neighbouring field, or asserted as the wrong message type) (R1); every string-index and id scratch field that encode writes is filled by preEncode from the exported attribute that postDecode resolves it back into (intern/resolve symmetry) (R2); every exported attribute of the eight message structs is carried by one of those paths (R3); the scratch fields are produced only inside serialize (R4); the varint and tag constants of encoder and decoder describe the same radix and the same tag/wire-type split (R5). Not decided: the varint/packed arithmetic itself, packed thresholds, unit padding, id-table resolution for sparse ids, byte-identical re-serialization, gzip."
+	c.Explanation = "Decides the table-agreement part of C01 for every profile: for each of the eight wire messages the writer's encode method and the reader's decoder table agree tag by tag on kind and on the struct field they carry (no field written but not read, read but not written, read into the neighbouring field, or asserted as the wrong message type) (R1); every string-index and id scratch field that encode writes is filled by preEncode from the exported attribute that postDecode resolves it back into (intern/resolve symmetry) (R2); every exported attribute of the eight message structs is carried by one of those paths (R3); the scratch fields are produced only inside serialize (R4); the varint and tag constants of encoder and decoder describe the same radix and the same tag/wire-type split (R5). Also: unit lists are padded before NumUnit is published (R6); every scalar scratch field assigned in a loop of preEncode is assigned on every path through the iteration, so no value of an earlier serialization survives (R7); a conditional sub-message is written whenever any field its own encode method writes is set (R8); preEncode and marshal run in one critical section of serialize (R4). Not decided: the varint/packed arithmetic itself, packed thresholds, id-table resolution for sparse ids, byte-identical re-serialization, gzip."
 	p := c.P
 	sp := p.SSAPkg("profile")
 	if sp == nil {
@@ -152,6 +152,234 @@ func runC01(c *Check) {
 	c.wireConstants()
 	c.scratchReset()
 	c.unitPadding("C01-R6")
+	c.scratchAssignedOnEveryPath()
+	c.subMessageOmission()
+}
+
+// scratchAssignedOnEveryPath (R7): the scratch fields survive between serializations, so
+// preEncode must give each of them a value on every path: a scalar scratch field that is
+// assigned inside a loop over its owners is assigned on every path through an iteration
+// (the "no reference: write 0" arm may not be dropped, or a reference removed after an
+// earlier Write/Copy is still written).
+func (c *Check) scratchAssignedOnEveryPath() {
+	p := c.P
+	pre := c.anchorFn("C01-R7", "profile", "(*Profile).preEncode")
+	if pre == nil {
+		return
+	}
+	type grp struct {
+		T, F string
+		hdr  *ssa.BasicBlock
+	}
+	groups := map[grp][]*ssa.BasicBlock{}
+	pos := map[grp]token.Pos{}
+	for _, b := range pre.Blocks {
+		for _, ins := range b.Instrs {
+			st, ok := ins.(*ssa.Store)
+			if !ok {
+				continue
+			}
+			fa, ok := st.Addr.(*ssa.FieldAddr)
+			if !ok {
+				continue
+			}
+			T, F := fieldOf(fa.X.Type(), fa.Field)
+			if !strings.HasPrefix(T, "profile.") || F == "" || !(F[0] >= 'a' && F[0] <= 'z') || !strings.HasSuffix(F, "X") {
+				continue
+			}
+			if _, isBasic := st.Val.Type().Underlying().(*types.Basic); !isBasic {
+				continue // slices are covered by the reset rule (R2)
+			}
+			if _, fresh := fa.X.(*ssa.Alloc); fresh {
+				continue // a label value under construction
+			}
+			// innermost loop containing the store
+			var hdr *ssa.BasicBlock
+			for d := b; d != nil && hdr == nil; d = d.Idom() {
+				isHdr := false
+				for _, pred := range d.Preds {
+					if d.Dominates(pred) {
+						isHdr = true
+					}
+				}
+				if isHdr && naturalLoop(d)[b] {
+					hdr = d
+				}
+			}
+			if hdr == nil {
+				continue
+			}
+			g := grp{T, F, hdr}
+			groups[g] = append(groups[g], b)
+			if _, ok := pos[g]; !ok {
+				pos[g] = st.Pos()
+			}
+		}
+	}
+	var gs []grp
+	for g := range groups {
+		gs = append(gs, g)
+	}
+	sort.Slice(gs, func(i, j int) bool { return gs[i].T+gs[i].F < gs[j].T+gs[j].F })
+	for _, g := range gs {
+		blocks := map[*ssa.BasicBlock]bool{}
+		for _, b := range groups[g] {
+			blocks[b] = true
+		}
+		loop := naturalLoop(g.hdr)
+		skipped := false
+		seen := map[*ssa.BasicBlock]bool{}
+		var walk func(b *ssa.BasicBlock)
+		walk = func(b *ssa.BasicBlock) {
+			if skipped || blocks[b] || seen[b] || !loop[b] {
+				return
+			}
+			seen[b] = true
+			for _, sc := range b.Succs {
+				if sc == g.hdr {
+					skipped = true
+					return
+				}
+				walk(sc)
+			}
+		}
+		for _, sc := range g.hdr.Succs {
+			if loop[sc] {
+				walk(sc)
+			}
+		}
+		key := "assigned:" + g.T + "." + g.F
+		if skipped {
+			c.bad("C01-R7", key, p.relFile(pos[g]), "preEncode leaves "+g.T+"."+g.F+" untouched on some path through its loop: the value written by an earlier serialization of the same profile is written again (a mapping or function reference cleared after a Write/Copy comes back on the next one)")
+		} else {
+			c.ok("C01-R7", key, p.relFile(pos[g]), g.T+"."+g.F+" is assigned on every path through its loop in preEncode", "no path through one iteration avoids all stores to it")
+		}
+	}
+	if len(gs) < 8 {
+		c.undecided("C01-R7", "assigned:count", p.relFile(pre.Pos()), fmt.Sprintf("expected at least 8 scalar scratch fields assigned in loops of preEncode, found %d", len(gs)))
+	}
+}
+
+// subMessageOmission (R8): an optional sub-message may be left out only when it carries
+// nothing.  For a conditional encodeMessage call in an encode method, assuming the
+// message present and any one of the scratch fields its own encode method writes to be
+// non-zero, no path avoids the call.
+func (c *Check) subMessageOmission() {
+	p := c.P
+	n := 0
+	forAllPkgFuncs(p, "profile", func(f *ssa.Function) {
+		if f.Name() != "encode" || f.Signature.Recv() == nil {
+			return
+		}
+		for _, b := range f.Blocks {
+			for _, ins := range b.Instrs {
+				call, ok := ins.(*ssa.Call)
+				if !ok || call.Call.StaticCallee() == nil || call.Call.StaticCallee().Name() != "encodeMessage" || len(call.Call.Args) != 3 {
+					continue
+				}
+				if nestingDepth(b) > 0 {
+					continue
+				}
+				uncond := true
+				for _, rb := range f.Blocks {
+					if _, isRet := rb.Instrs[len(rb.Instrs)-1].(*ssa.Return); isRet && !b.Dominates(rb) {
+						uncond = false
+					}
+				}
+				if uncond {
+					continue
+				}
+				mi, ok := call.Call.Args[2].(*ssa.MakeInterface)
+				if !ok {
+					continue
+				}
+				msg := mi.X
+				T := structName(msg.Type())
+				var menc *ssa.Function
+				forAllPkgFuncs(p, "profile", func(g *ssa.Function) {
+					if g.Name() == "encode" && g.Signature.Recv() != nil && structName(g.Signature.Recv().Type()) == T {
+						menc = g
+					}
+				})
+				if menc == nil {
+					c.undecided("C01-R8", "omit:"+T, p.relFile(call.Pos()), "encode method of "+T+" not found")
+					continue
+				}
+				fields := fieldsReadOf(menc, T)
+				for _, F := range sortedBoolKeys(fields) {
+					n++
+					key := "omit:" + T + "." + F
+					assume := func(cond ssa.Value) int {
+						cmp, ok := cond.(*ssa.BinOp)
+						if !ok || (cmp.Op != token.NEQ && cmp.Op != token.EQL) {
+							return 0
+						}
+						res := 0
+						if (cmp.X == msg || sameLoad(cmp.X, msg)) && isNilConst(cmp.Y) {
+							res = 1 // msg != nil
+						} else if isFieldLoad(cmp.X, T, F) {
+							if k, ok := constInt(cmp.Y); ok && k == 0 {
+								res = 1 // field != 0
+							}
+						}
+						if cmp.Op == token.EQL {
+							res = -res
+						}
+						return res
+					}
+					// a path from entry to a return that avoids the call block
+					avoid := false
+					seen := map[*ssa.BasicBlock]bool{}
+					var walk func(x *ssa.BasicBlock)
+					walk = func(x *ssa.BasicBlock) {
+						if avoid || seen[x] || x == b {
+							return
+						}
+						seen[x] = true
+						if _, isRet := x.Instrs[len(x.Instrs)-1].(*ssa.Return); isRet {
+							avoid = true
+							return
+						}
+						succs := x.Succs
+						if iff, ok := x.Instrs[len(x.Instrs)-1].(*ssa.If); ok {
+							switch assume(iff.Cond) {
+							case 1:
+								succs = x.Succs[:1]
+							case -1:
+								succs = x.Succs[1:]
+							}
+						}
+						for _, sc := range succs {
+							walk(sc)
+						}
+					}
+					walk(f.Blocks[0])
+					if avoid {
+						c.bad("C01-R8", key, p.relFile(call.Pos()), fmt.Sprintf("%s can omit its %s sub-message although %s.%s is set: %s.encode writes that field, so a value that has only it (a period type with a unit but no type) is lost on write and the re-serialized bytes differ", fnName(f), T, T, F, T))
+					} else {
+						c.ok("C01-R8", key, p.relFile(call.Pos()), fmt.Sprintf("%s writes its %s sub-message whenever %s is set", fnName(f), T, F), "assuming the message present and the field non-zero, no path avoids the encodeMessage call")
+					}
+				}
+			}
+		}
+	})
+	if n < 2 {
+		c.undecided("C01-R8", "omit:count", "", fmt.Sprintf("expected the conditional period-type sub-message with two fields, found %d obligations", n))
+	}
+}
+
+func isNilConst(v ssa.Value) bool { k, ok := v.(*ssa.Const); return ok && k.IsNil() }
+
+// sameLoad: both values load the same field of the same object.
+func sameLoad(a, b ssa.Value) bool {
+	la, ok1 := a.(*ssa.UnOp)
+	lb, ok2 := b.(*ssa.UnOp)
+	if !ok1 || !ok2 || la.Op != token.MUL || lb.Op != token.MUL {
+		return false
+	}
+	fa, ok1 := la.X.(*ssa.FieldAddr)
+	fb, ok2 := lb.X.(*ssa.FieldAddr)
+	return ok1 && ok2 && fa.Field == fb.Field && sameNode(fa.X, fb.X)
 }
 
 // scratchReset (R2b): a scratch slice that preEncode rebuilds with append must be reset
@@ -901,6 +1129,30 @@ func (c *Check) scratchProducers() {
 			c.ok("C01-R4", "caller:"+fn.name, "", fn.name+" is only called from "+fn.caller, "single static caller; serialize holds encodeMu around both (C20)")
 		} else {
 			c.bad("C01-R4", "caller:"+fn.name, "", "scratch state is produced outside serialize: "+bad)
+		}
+	}
+	// the scratch fields are filled and read inside one critical section
+	if ser := c.anchorFn("C01-R4", "profile", "serialize"); ser != nil {
+		var pre, mar ssa.Instruction
+		for _, b := range ser.Blocks {
+			for _, ins := range b.Instrs {
+				if call, ok := ins.(*ssa.Call); ok && call.Call.StaticCallee() != nil {
+					switch call.Call.StaticCallee().Name() {
+					case "preEncode":
+						pre = call
+					case "marshal":
+						mar = call
+					}
+				}
+			}
+		}
+		switch {
+		case pre == nil || mar == nil:
+			c.undecided("C01-R4", "one-section", c.P.relFile(ser.Pos()), "serialize no longer calls preEncode and marshal")
+		case sameLockSection(ser, pre, mar):
+			c.ok("C01-R4", "one-section", c.P.relFile(mar.Pos()), "the scratch fields are read by marshal in the critical section in which preEncode filled them", "both calls follow one Lock with no Unlock between them")
+		default:
+			c.bad("C01-R4", "one-section", c.P.relFile(mar.Pos()), "serialize fills the scratch fields (preEncode) and reads them (marshal) in different critical sections: a concurrent Write/Copy of the same profile rebuilds label, id and string tables while they are being written, so the bytes no longer describe the profile")
 		}
 	}
 }
